@@ -297,7 +297,7 @@ Local Open Scope Z_scope.
 
 
 def evaluate(ctx, scases, xcases, name="cases"):
-    defs = "Definition scases : list shadow_case := [\n%s\n].\n" % ";\n".join(coq_shadow_case(c) for c in scases)
+    defs = "Local Open Scope nat_scope.\nDefinition scases : list shadow_case := [\n%s\n].\nLocal Open Scope Z_scope.\n" % ";\n".join(coq_shadow_case(c) for c in scases)
     defs += "Definition xcases : list xmm_case := [\n%s\n].\n" % ";\n".join(
         "{| xc_before := %s; xc_clobber := %s; xc_after := %s |}" % (coq_pairs(b), coq_pairs(c), coq_pairs(a))
         for (b, c, a) in xcases)
@@ -485,14 +485,14 @@ def e2e(ctx, objdir):
     jobs = []
     for pi, (params, combos) in enumerate(plan):
         src, desc = make_prog(params)
-        for (mode, opt, oset, live) in combos:
+        for (mode, opt, oset, live) in sorted(set(combos)):
             jobs.append((pi, params, src, desc, mode, opt, oset, live))
 
     def one(job):
         pi, params, src, desc, mode, opt, oset, live = job
         exe = compile_prog(work, "p%d" % pi, src, mode, opt)
         nat = run_native(exe)
-        dd = os.path.join(work, "d.%d.%s%s.%s" % (pi, mode, opt, oset))
+        dd = os.path.join(work, "d.%d.%s%s.%s.%d" % (pi, mode, opt, oset, int(live)))
         tr = run_traced(objdir, exe, mode, osets[oset], dd, live)
         return job, nat, tr
 
